@@ -199,8 +199,8 @@ def jlStream : Nat → Bytes → List JItem → Option (List JItem)
     | 110 :: _ => none                                -- `null` decodes into a struct without an error
     | _ => some (JItem.bad :: acc).reverse            -- no other value decodes into a struct
 
-/-- the elements of an array, standing before an element -/
-def jlElems : Nat → Bytes → List Bytes → Option (Option (List Bytes))
+/-- the elements of an array, standing before an element; the answer carries what follows the closing bracket -/
+def jlElems : Nat → Bytes → List Bytes → Option (Option (List Bytes × Bytes))
   | 0, _, _ => none
   | fuel + 1, s, acc =>
     match skipJws s with
@@ -213,7 +213,7 @@ def jlElems : Nat → Bytes → List Bytes → Option (Option (List Bytes))
           match skipJws rest with
           | [] => some none
           | 44 :: r' => jlElems fuel r' (t :: acc)
-          | 93 :: _ => some (some (t :: acc).reverse)
+          | 93 :: r' => some (some ((t :: acc).reverse, r'))
           | _ => none
         | some .bad => some none
         | none => none
@@ -222,6 +222,11 @@ def jlElems : Nat → Bytes → List Bytes → Option (Option (List Bytes))
     | 110 :: _ => none                       -- a `null` element is an entity without any member
     | _ => some none                         -- no other value decodes into a struct
 
+def arrayOf (r : Option (List Bytes × Bytes)) : JSrc :=
+  match r with
+  | none => .array none false
+  | some (es, rest) => .array (some es) (!(skipJws rest).isEmpty)
+
 /-- `none` = the driver abstains -/
 def jsonlineSrc (data : Bytes) : Option JSrc :=
   match skipJws data with
@@ -229,9 +234,9 @@ def jsonlineSrc (data : Bytes) : Option JSrc :=
   | 123 :: _ => (jlStream (data.length + 1) data []).map .stream
   | 91 :: r =>
     match skipJws r with
-    | [] => some (.array none)
-    | 93 :: _ => some (.array (some []))
-    | _ => (jlElems (data.length + 1) r []).map .array
+    | [] => some (.array none false)
+    | 93 :: r' => some (arrayOf (some ([], r')))
+    | _ => (jlElems (data.length + 1) r []).map arrayOf
   | _ => some .refused
 
 def jsonlineModel (pre : Bool) (multi : Option (Nat × Nat)) (data : Bytes) : Option String :=
@@ -239,7 +244,7 @@ def jsonlineModel (pre : Bool) (multi : Option (Nat × Nat)) (data : Bytes) : Op
   | none => none
   | some src =>
     let (passes, limit) := multi.getD (1, 0)
-    let r := jsonlineRun src pre passes limit
+    let r := jsonlineRun true src pre passes limit
     if r == ctorErr then some "n=0 e= end=ctor-err:other" else some (renderRun false r)
 
 /-- grpc/json: the file's scanner lines; `none` when a line comes near the scanner's buffer size or when
@@ -520,6 +525,13 @@ def kindKey (kv : List (String × String)) (impl verdict : String) : String :=
     | "scnnull" => "fail:scenario-empty-item-" ++ (verdict.drop 5).toString
     | "genjson" => "fail:genjson-" ++ (verdict.drop 5).toString
     | "pfx" => if getS kv "fmt" == "genjson" then "fail:genjson-" ++ (verdict.drop 5).toString else verdict
+    | "ammo" =>
+      -- a JSON array followed by something else, accepted: the defect repaired by fixes/C13-jsonline-array-trailing-data.diff
+      if getS kv "fmt" == "jsonline" && verdict.startsWith "fail:accepted" then
+        match (bytesOfHex (getS kv "hex")).bind jsonlineSrc with
+        | some (.array (some _) true) => "fail:jsonline-array-trailing-" ++ (verdict.drop 5).toString
+        | _ => verdict
+      else verdict
     | "scnraw" =>
       if containsSub impl "site=config.ExtractVariableStorage" then "fail:scenario-empty-item-" ++ (verdict.drop 5).toString
       else verdict
@@ -539,7 +551,7 @@ def pfxVerdict (kv : List (String × String)) (impl : String) : Option String :=
   let fmt := getS kv "fmt"
   let isJson := fmt == "jsonline" || fmt == "grpcjson" || fmt == "genjson"
   let arrayMode := fmt == "jsonline" && (match good.dropWhile isJsonWs with | 91 :: _ => true | _ => false)
-  some (pfxJudge s!"{fmt} provider" (isJson && !arrayMode && truncatedObject junk) impl)
+  some (pfxJudge s!"{fmt} provider" (isJson && !arrayMode && truncatedObject junk) impl arrayMode)
 
 def fltVerdict (kv : List (String × String)) (impl : String) : Option String := do
   if getS kv "k" != "flt" then none
